@@ -20,3 +20,7 @@ open A2l.Srt
 #print axioms iterInv_after_sort
 #print axioms additions_keep_placed_order
 #print axioms push_keeps_placed_order_partial
+#print axioms iterInv_push_fresh
+#print axioms iterInv_history
+#print axioms placed_order_stable_history_partial
+#print axioms push_into_single_breaks_invariant
